@@ -1,11 +1,17 @@
 #!/bin/sh
-# trymut.sh <patch.diff> <secs> <prop> [prop...]: apply a seeded change to /repo, run the quick checks, always undo.
+# trymut.sh <patch.diff> <secs> <prop> [prop...]: run quick checks against a seeded change WITHOUT touching /repo:
+# a scratch worktree of /repo gets the patch, a scratch copy of /verif is pointed at it (go.mod replace, VERIF_REPO),
+# both live on /dev/shm and are removed afterwards.
 PATCH="$1"; SECS="$2"; shift; shift
-cd /repo || exit 2
-git diff --quiet || { echo "/repo is dirty"; exit 2; }
-trap 'git -C /repo checkout -- . ; git -C /repo clean -fdq -- test/seeded 2>/dev/null' EXIT INT TERM
-git apply "$PATCH" || { echo "patch does not apply"; exit 2; }
+M=$(mktemp -d /dev/shm/mut.XXXXXX) || exit 2
+cleanup() { git -C /repo worktree remove --force "$M/repo" 2>/dev/null; rm -rf "$M"; git -C /repo worktree prune; }
+trap cleanup EXIT INT TERM
+git -C /repo worktree add --detach "$M/repo" HEAD >/dev/null 2>&1 || { echo "worktree failed"; exit 2; }
+git -C "$M/repo" apply "$PATCH" || { echo "patch does not apply"; exit 2; }
+mkdir -p "$M/verif"
+rsync -a --exclude out --exclude bin --exclude .git --exclude seeded /verif/ "$M/verif/"
+sed -i "s|=> /repo\$|=> $M/repo|" "$M/verif/sim/go.mod"
 for P in "$@"; do
   echo "=== $P"
-  sh /verif/check.sh "$P" quick -secs "$SECS" 2>&1 | grep -E "^VIOLATION|^KNOWN|^violation|^runs=|infrastructure|build failed" | cut -c1-300
+  VERIF_ROOT="$M/verif" VERIF_REPO="$M/repo" sh "$M/verif/check.sh" "$P" quick -secs "$SECS" 2>&1 | sed "s|$M/verif|/verif(mut)|g" | grep -E "^VIOLATION|^KNOWN|^violation|^runs=|infrastructure|build failed|^worker died" | cut -c1-300
 done
